@@ -338,5 +338,47 @@ SHRINK_DICTS = []
 
 
 def shrink_plan(plan):
-  """Candidate simplifications: drop whole clients' tails."""
-  return []
+  """Candidate simplifications beyond dropping steps: remove a whole client, cut a
+  client's stream after half / all but the last of its items, drop a datagram."""
+  import copy
+  clients = plan['clients']
+  if len(clients) > 1:
+    for i in range(len(clients)):
+      p = copy.deepcopy(plan)
+      del p['clients'][i]
+      steps = []
+      for st in p['steps']:
+        if st[0] in ('seg', 'dgram'):
+          ci = st[1] % len(clients)
+          if ci == i:
+            continue
+          st = [st[0], ci - (1 if ci > i else 0)] + list(st[2:])
+        steps.append(st)
+      p['steps'] = steps
+      yield p
+  for i, c in enumerate(clients):
+    if c['kind'] == 'udp':
+      for k in range(len(c['dgrams'])):
+        if len(c['dgrams']) > 1:
+          p = copy.deepcopy(plan)
+          del p['clients'][i]['dgrams'][k]
+          p['steps'] = [st for st in p['steps']
+                        if not (st[0] == 'dgram' and st[1] % len(clients) == i and st[2] >= len(c['dgrams']) - 1)]
+          yield p
+      continue
+    items = c['items']
+    if len(items) > 1:
+      for keep in (len(items) // 2, len(items) - 1):
+        if keep < 1:
+          continue
+        p = copy.deepcopy(plan)
+        end = items[keep - 1]['end']
+        p['clients'][i]['items'] = items[:keep]
+        p['clients'][i]['stream'] = c['stream'][:end]
+        yield p
+      # drop the first item (shift offsets)
+      p = copy.deepcopy(plan)
+      off = items[0]['end']
+      p['clients'][i]['stream'] = c['stream'][off:]
+      p['clients'][i]['items'] = [dict(it, start=it['start'] - off, end=it['end'] - off) for it in items[1:]]
+      yield p
